@@ -155,3 +155,24 @@ for sd, rd in (('+', '='), ('.', '>>'), (' & ', ' = '), (' + ', ' <=> ')):
 for f, comp, key in (('CH3CH2OH', {'C': 2, 'H': 6, 'O': 1}, 'H'), ('H2O', {'H': 2, 'O': 1}, 'O')):
     lemma('parse_formula-after-editing-an-earlier-result[%s]' % f, P, forall=dict(), given=[],
           prove=[('same-composition-again', 'spec.util.call_edit_call(pm.parse_formula, %r, %r) == %r' % (f, key, comp))])
+
+
+# the balance check also refuses elements that appear on one side only (products, reactants or transition state)
+def side_rxn(reactants, products, ts=None):
+    kw = dict(reactants=ListOf([esp(n, c) for n, c in reactants]), reactants_stoich=ListOf([Const(1.) for _ in reactants]),
+              products=ListOf([esp(n, c) for n, c in products]), products_stoich=ListOf([Const(1.) for _ in products]))
+    if ts:
+        kw['transition_state'] = ListOf([esp(n, c) for n, c in ts])
+        kw['transition_state_stoich'] = ListOf([Const(1.) for _ in ts])
+    return New(RX + 'Reaction', **kw)
+
+
+H2, H2O, O, N = ('H2', {'H': 2}), ('H2O', {'H': 2, 'O': 1}), ('O', {'O': 1}), ('N', {'N': 1})
+for label, r_, p_, t_, bad in (('extra-element-in-products', [H2], [H2O], None, True),
+                               ('extra-element-in-reactants', [H2O], [H2], None, True),
+                               ('extra-element-in-TS', [H2, O], [H2O], [('TS', {'H': 2, 'O': 1, 'N': 1})], True),
+                               ('element-missing-in-TS', [H2, O], [H2O], [('TS', {'H': 2})], True),
+                               ('balanced-with-TS', [H2, O], [H2O], [('TS', {'H': 2, 'O': 1})], False),
+                               ('balanced-several-species', [H2, O, N], [H2O, N], None, False)):
+    contract(RX + 'Reaction.check_element_balance', P, label=label, args=dict(self=side_rxn(r_, p_, t_)),
+             raises={'ValueError': 'True' if bad else 'False'}, cross_check=False)
